@@ -57,15 +57,54 @@ def validate_contract_dict(  # noqa: WPS231 too much cognitive complexity
                 _check_clause(clause, f"{contract_name}:{kw}{index}")
 
 
+def _is_number(value: object) -> bool:
+    return isinstance(value, (int, float)) and not isinstance(value, bool)
+
+
 def _check_clause(clause: dict, clause_id: str) -> None:
+    if not isinstance(clause, dict):
+        raise ContractFormatError(f"{clause_id} should be a dictionary")
     keywords = ["constant", "coefficients"]
     for kw in keywords:
         if kw not in clause:
-            ContractFormatError(f'Keyword "{kw}" not found in {clause_id}')
+            raise ContractFormatError(f'Keyword "{kw}" not found in {clause_id}')
         value = clause[kw]
         if kw == "coefficients":
             if not isinstance(value, dict):
                 raise ContractFormatError(f'The "{kw}" in {clause_id} should be a dictionary')
+            for var, coeff in value.items():
+                if not isinstance(var, str) or not _is_number(coeff):
+                    raise ContractFormatError(f'The "{kw}" in {clause_id} should map variable names to numbers')
+        elif not _is_number(value):
+            raise ContractFormatError(f'The "{kw}" in {clause_id} should be a number')
+
+
+def validate_compound_contract_dict(contract: Dict, contract_name: str) -> None:
+    """
+    Tell whether a contract dictionary can be read as a compound polyhedral contract.
+
+    Args:
+        contract: a dictionary to be analyzed.
+        contract_name: a name for the contract (used for error reporting).
+
+    Raises:
+        ContractFormatError: the provided contract is not well-formed.
+    """
+    if not isinstance(contract, dict):
+        raise ContractFormatError("Each contract should be a dictionary")
+    for kw in ("assumptions", "guarantees", "input_vars", "output_vars"):
+        if kw not in contract:
+            raise ContractFormatError(f'Keyword "{kw}" not found in contract {contract_name}')
+        value = contract[kw]
+        if not isinstance(value, list):
+            raise ContractFormatError(f'The "{kw}" in contract {contract_name} should be a list')
+        for item in value:
+            if kw in {"input_vars", "output_vars"}:
+                well_formed = isinstance(item, str)
+            else:
+                well_formed = isinstance(item, list) and all(isinstance(str_item, str) for str_item in item)
+            if not well_formed:
+                raise ContractFormatError(f"The {kw} in contract {contract_name} should be defined as strings")
 
 
 float_closeness_relative_tolerance: float = 1e-5
